@@ -17,9 +17,9 @@ META = {
     "engine": "E3 reference model through the real load() (entry-point plugins, construction log)",
     "rule": (
         "seeded random YAML documents: pipelines of 1-8 elements, each independently a registered !Tag in "
-        "mapping / sequence / bare form or a legacy __type__ mapping with keyword items; argument values: "
+        "mapping / sequence / bare form or a legacy __type__ mapping with keyword items (naming its class directly, through a namespace class, or by a classmethod constructor); argument values: "
         "scalars of every YAML type (plain, quoted, ints in several bases, floats, inf, bools, null, dates), "
-        "nested lists and mappings, anchors/aliases, merge keys (`<<`) whose values the element partly overrides, nested lazily and eagerly evaluated tags, helper objects written "
+        "nested lists and mappings (also keyed by numbers, booleans, null), anchors/aliases, merge keys (`<<`) whose values the element partly overrides, nested lazily and eagerly evaluated tags, helper objects written "
         "as nested __type__ mappings inside __type__ elements; elements whose truth value is False (`__bool__` / `__len__`); tail as "
         "template tag, as a tag that builds the pool while the YAML is read, or __type__; optional extra "
         "section and logging section; a third of the documents inject a constructor failure (8 exception types incl. KeyError, "
@@ -65,6 +65,8 @@ def gen_value(rnd, depth=0, allow_tag=True, allow_type=False):
         return ("list", [gen_value(rnd, depth + 1, allow_tag, allow_type) for _ in range(rnd.randint(0, 3))])
     if k < 0.85 or not allow_tag:
         keys = rnd.sample(KEYS, rnd.randint(0, 3))
+        if rnd.random() < 0.15:
+            keys += rnd.sample(["1", "10", "2.5", "true", "~", "-3"], rnd.randint(1, 2))  # a table keyed by numbers, booleans, null
         return ("map", [(key, gen_value(rnd, depth + 1, allow_tag, allow_type)) for key in keys])
     tag = rnd.choice(["VSnapLazy", "VSnapEager"])
     form = rnd.choice(["map", "list", "bare"])
@@ -133,12 +135,14 @@ def gen_element(rnd, position, n):
             kwargs[1] = (kwargs[1][0], ("alias", "anc%d" % position))
     elif form == "list":
         args = [gen_value(rnd, allow_tag=True) for _ in range(rnd.randint(1, 3))]
-    return {"cls": cls, "syntax": syntax, "form": form, "args": args, "kwargs": kwargs}
+    # how a __type__ element names its class: directly, through a namespace class, or by an alternative constructor
+    typename = rnd.choice(["vplug.%s", "vplug.%s", "vplug.Site.%s", "vplug.%s.build"]) % cls
+    return {"cls": cls, "syntax": syntax, "form": form, "args": args, "kwargs": kwargs, "typename": typename}
 
 
 def element_text(e, placeholder=False):
     if e["syntax"] == "type":
-        items = ["__type__: vplug.%s" % e["cls"]] + ["%s: %s" % (k, emit(v, placeholder)) for k, v in e["kwargs"]]
+        items = ["__type__: %s" % e.get("typename", "vplug.%s" % e["cls"])] + ["%s: %s" % (k, emit(v, placeholder)) for k, v in e["kwargs"]]
         return "{" + ", ".join(items) + "}"
     if e["form"] == "map":
         body = "{" + ", ".join("%s: %s" % (k, emit(v, placeholder)) for k, v in e["kwargs"]) + "}"
@@ -336,6 +340,8 @@ def execute(case, result):
             result.count("elements_whose_truth_value_is_false")
         compare(list(obj.args), args, eager_seen, problems, "element %d args" % i)
         compare(dict(obj.kwargs), kwargs, eager_seen, problems, "element %d kwargs" % i)
+        if e["syntax"] == "type" and e.get("typename", "").count(".") >= 2:
+            result.count("type_elements_named_below_a_class")
         if e["cls"] == "VPoolNow":
             result.count("tails_built_while_reading")
             compare(list(obj.seen_at_call[0]), args, [], problems, "element %d args at call time (eager tag)" % i)
@@ -400,6 +406,6 @@ def run_shard(spec):
 def finish(total, tier):
     for name in ("documents_valid", "documents_with_failing_constructor", "elements_tag_map", "elements_tag_list", "elements_tag_bare",
                  "elements_type_map", "nested_eager_tags_checked", "tails_built_while_reading", "pipelines_compared_with_rshift",
-                 "extra_sections_digested", "elements_with_nested_type_helper", "failing_constructor_raising_KeyError", "elements_with_merge_key", "elements_whose_truth_value_is_false"):
+                 "extra_sections_digested", "elements_with_nested_type_helper", "failing_constructor_raising_KeyError", "elements_with_merge_key", "elements_whose_truth_value_is_false", "type_elements_named_below_a_class"):
         if not total.counters.get(name) and not total.violations:
             total.inconc("monitor never observed: " + name)
